@@ -81,6 +81,15 @@ from nunavut.jinja import DSDLCodeGenerator
 members = [n for n, m in inspect.getmembers(DSDLCodeGenerator, inspect.isroutine)]
 out['gen_filters'] = [n[7:] for n in members if n.startswith('filter_')]
 out['gen_tests'] = [n[3:] for n in members if n.startswith('is_')]
+try:
+    reg = []
+    for n, f in DSDLCodeGenerator._create_all_dsdl_tests().items():
+        cells = dict(zip(f.__code__.co_freevars, [c.cell_contents for c in (f.__closure__ or ())]))
+        reg.append([n, cells['root'].__name__])
+    out['registered_tests'] = reg
+except Exception as ex:
+    out['registered_tests'] = None
+    out['registered_tests_error'] = repr(ex)
 print('C16DUMP' + json.dumps(out))
 '''
 
@@ -436,6 +445,8 @@ def data() -> dict:
     d = dump(roots, langs)
     if d['dup_names']:
         raise Unsupported('two pydsdl classes share a __name__')
+    if d.get('registered_tests') is None:
+        raise Unsupported('registered DSDL tests cannot be dumped with their captured class: %s' % d.get('registered_tests_error'))
     for c in d['classes']:
         if not c['name'].isascii():
             raise Unsupported('non-ASCII class name')
@@ -455,7 +466,7 @@ def render(d: dict) -> str:
         '(%d, (%s, ([%s], %d%%nat))) (* %s%s *)' % (ident[c['name']], coq_str(c['name']), '; '.join(str(ident[b]) for b in c['bases']),
                                                     c['rank'], c['name'], ' : ' + ', '.join(c['bases']) if c['bases'] else '')
         for c in classes) + '].\n')
-    for nm in ('Any', 'Attribute', 'SerializableType'):
+    for nm in ('Any', 'Attribute', 'SerializableType', 'CompositeType', 'StructureType'):
         if nm not in ident:
             raise Unsupported('pydsdl.%s is not in the class forest' % nm)
         L.append('Definition g_cls_%s : N := %d.' % (nm, ident[nm]))
@@ -465,6 +476,9 @@ def render(d: dict) -> str:
     for r in d['roots_order']:
         order += d['roots'][r]
     L.append('Definition g_test_order : list N := [%s].\n' % '; '.join(str(ident[n]) for n in order))
+    L.append('(* import-time dump of DSDLCodeGenerator._create_all_dsdl_tests(): (registered test name, id of the class captured as `root`) *)')
+    L.append('Definition g_registered_tests : list (str * N) :=\n  [' + ';\n   '.join(
+        '(%s, %d) (* %s -> %s *)' % (coq_str(n), ident[r], n, r) for n, r in d['registered_tests']) + '].\n')
     L.append('(* T2: alias rule of DSDLCodeGenerator._create_instance_tests_for_type *)')
     L.append('Definition alias_key (%s : str) : str :=\n  %s.\n' % tuple(d['alias_rule']))
     L.append('(* built-in template packages: (language, sorted listing of relative paths -- every file, not only templates) *)')
